@@ -132,6 +132,18 @@ def read_records(files):
     recs = []
     for f in files:
         with Dataset(f) as nc:
+            if "particle_count" not in nc.variables:  # dense layout: variables over (time, particle), index == pid
+                t = nc.variables["time"][:]
+                names = sorted(v for v in nc.variables if nc.variables[v].dimensions == ("time", "particle"))
+                for r in range(len(t)):
+                    rows = {v: np.ma.masked_invalid(np.ma.asarray(nc.variables[v][r, :])) for v in names}
+                    npart = len(rows[names[0]]) if names else 0
+                    rec = {}
+                    for pid in range(npart):
+                        if not np.ma.is_masked(rows["X"][pid]) and abs(float(rows["X"][pid])) < 1e30:
+                            rec[pid] = tuple(float(rows[v][pid]) for v in names)
+                    recs.append((float(t[r]), rec))
+                continue
             pc = nc.variables["particle_count"][:]
             t = nc.variables["time"][:]
             s = 0
@@ -259,8 +271,39 @@ def independence_bounded(p):
         r1 = u_shift_free(rows_s, d / "t1", 1.0)
         if [rec for _t, rec in r0] != [rec for _t, rec in r1]:
             failures.append(dict(what="shifting every time of the set-up by 6 steps changes the trajectories"))
-        samples.append(dict(scenario="4 particles, 2 release times, depth-dependent sheared current, scalar forcing, RK4", checks="repeat, drop/swap/add rows, neighbour killed, time shift"))
-    return dict(cases=cases, failures=failures[:10], samples=samples, bound="one scenario family: 4 rows, 2 h, 3 row edits, kill x 2 schemes, 1 time shift")
+        # an island, and other particles that leave through the open boundary (they die, stay in the state as dead or
+        # inactive entries in the dense layout): a particle running into the island must behave the same whatever
+        # other rows the release file holds, before or after its own
+        isl = d / "island"
+        isl.mkdir()
+        mask = np.ones((12, 14))
+        mask[4:7, 8] = 0
+        write_forcing(isl, sign=1.0, shear=False, mask=mask)
+        drifters = [(iso(0), 12.2, 2.0 + 0.9 * k, 5.0) for k in range(8)]
+        mine = [(iso(0), 4.3, 8.6, 5.0), (iso(0), 7.2, 3.6, 5.0), (iso(0), 7.25, 3.75, 5.0)]  # the last two run into the island from its south-west corner
+        for layout in ("sparse", "dense"):
+            runs = {}
+            for tag, rws in (("before", drifters + mine), ("alone", mine), ("after", mine + drifters), ("mixed", drifters[:3] + mine[:1] + drifters[3:6] + mine[1:] + drifters[6:])):
+                sub = isl / f"{layout}_{tag}"
+                sub.mkdir()
+                cfg = base_config(isl, release_rows=rws, out=f"{sub.name}/out.nc", period=DT, advection="EF", layout=layout, extra=False)
+                try:
+                    run(cfg)
+                    runs[tag] = read_records([sub / "out.nc"])
+                except BaseException as e:  # noqa: BLE001
+                    failures.append(dict(what=f"island scenario ({layout}, {tag}) raised {type(e).__name__}: {str(e)[:100]}"))
+            cases += 1
+            where = dict(before=[8, 9, 10], alone=[0, 1, 2], after=[0, 1, 2], mixed=[3, 7, 8])
+            if "alone" in runs:
+                for tag in ("before", "after", "mixed"):
+                    if tag not in runs:
+                        continue
+                    for k in range(3):
+                        if _trajectory(runs[tag], where[tag][k]) != _trajectory(runs["alone"], k):
+                            failures.append(dict(what=f"{layout} layout, island scenario: the trajectory of a particle differs when other rows (particles leaving the grid) are listed {tag} it", particle=k))
+                            break
+        samples.append(dict(scenario="4 particles, 2 release times, depth-dependent sheared current, scalar forcing, RK4", checks="repeat, drop/swap/add rows, neighbour killed, time shift; island + outflow in both layouts"))
+    return dict(cases=cases, failures=failures[:10], samples=samples, bound="one scenario family: 4 rows, 2 h, 3 row edits, kill x 2 schemes, 1 time shift; island/outflow scenario x 2 layouts x 4 row arrangements")
 
 
 def protocol_bounded(p):
@@ -381,7 +424,9 @@ def mirror_bounded(p):
                     rel_f = [(iso(2 * S - 3.0), 4.3, 5.2, 5.0), (iso(2 * S - 3.0), 6.1, 4.4, 30.0), (iso(2 * S - 2.0), 5.2, 6.3, 50.0)]
                     kw = dict(continuous=True, freq=1800) if continuous else {}
                     try:
-                        cr = base_config(rd, start_h=3.0, stop_h=0.5, advection=sch, release_rows=rel_r, period=1200, reversal=True, **kw)
+                        # a discrete release file may list its rows chronologically also for a reversed run
+                        rows_r = sorted(rel_r, key=lambda r: r[0]) if (not continuous and li % 2 == 0) else rel_r
+                        cr = base_config(rd, start_h=3.0, stop_h=0.5, advection=sch, release_rows=rows_r, period=1200, reversal=True, **kw)
                         steps_r = []
                         run(cr, log=steps_r)
                         cf = base_config(fd, start_h=3.0, stop_h=5.5, advection=sch, release_rows=rel_f, period=1200, **kw)
